@@ -1639,7 +1639,6 @@ def sig_source_shrinks_to_nothing(case, params):
     return case["grow"]["delta"] < 0 and n > src["pre"] and n + case["grow"]["delta"] <= src["pre"]
 
 
-SIGNATURES["source_shrinks_to_nothing"] = sig_source_shrinks_to_nothing
 
 
 def cr_eval(bed, case):
